@@ -132,6 +132,8 @@ class SymBytes:
             return files.opaque_byte(s.src, s.start + d)
         if s.kind == "infl":
             return files.infl_byte(s.src, s.start + d)
+        if s.kind == "fill":
+            return s.src  # every byte of the segment has this (possibly symbolic) value
         raise Unsupported(f"byte of segment kind {s.kind}")
 
     def byte(self, i):
@@ -199,16 +201,41 @@ class SymBytes:
         """Merge neighbouring file segments that are provably adjacent in the file (decided exactly)."""
         out = []
         for s in self.segs:
-            if out and out[-1].kind == "file" and s.kind == "file" and out[-1].src == s.src:
+            if isinstance(s.length, SymInt) and eng().decide_case(s.length > 0) is None:
+                continue  # provably empty
+            if out and out[-1].kind == s.kind and s.kind in ("file", "opaque") and out[-1].src is not None \
+                    and (out[-1].src is s.src or (isinstance(s.src, str) and out[-1].src == s.src)):
                 p = out[-1]
                 gap = (p.start + p.length) != s.start
                 if gap is False or (gap is not True and eng().decide_case(gap) is None):
-                    out[-1] = Seg("file", p.src, p.start, p.length + s.length)
+                    out[-1] = Seg(s.kind, p.src, p.start, p.length + s.length)
                     continue
-            if isinstance(s.length, SymInt) and eng().decide_case(s.length > 0) is None:
-                continue  # provably empty
             out.append(s)
         return SymBytes(out)
+
+    def structurally_equal(self, o):
+        """Equality of two symbolic byte strings under the idealisation that bytes from different sources are
+        independent: same segment structure, sources, starts and lengths. Returns SymBool/bool."""
+        a, b = self.coalesced(), SymBytes.lift(o).coalesced()
+        if len(a.segs) != len(b.segs):
+            return False
+        conds = []
+        for x, y in zip(a.segs, b.segs):
+            if x.kind != y.kind:
+                return False
+            if x.kind == "const":
+                if x.src[x.start: x.start + x.length] != y.src[y.start: y.start + y.length]:
+                    return False
+                continue
+            same = x.src == y.src
+            if same is False:
+                return False
+            if same is not True:
+                conds.append(same)
+            conds.append(x.length == y.length)
+            if x.kind not in ("zero", "fill"):
+                conds.append(x.start == y.start)
+        return core.sym_and(*conds) if conds else True
 
     # -- comparisons with constants
     def __eq__(self, o):
@@ -231,6 +258,8 @@ class SymBytes:
         if isinstance(o, SymBytes):
             if o is self:
                 return True
+            if eng() is not None and getattr(eng(), "structural_bytes_eq", False):
+                return self.structurally_equal(o)
             raise Unsupported("equality of two symbolic byte strings")
         return False
 
